@@ -326,6 +326,18 @@ def validate_and_maybe_execute(ctx, rng, case, text, cls, doc_ir=None, op_ir=Non
         return
     if cls != "valid":
         ctx.mark_nontrivial([case.sdl, text])
+    # a document parsed without source positions is the same document: if it is accepted where the located one is
+    # not, it would be executed although it can go wrong
+    try:
+        noloc = list(validate_ast(case.schema, parse(text, no_location=True)).errors)
+        ctx.count("validated_without_locations")
+        if bool(noloc) != bool(errors):
+            ctx.violation("verdict-changes-without-source-positions", witness,
+                          "with positions: %r; without: %r" % ([str(e) for e in errors][:2], [str(e) for e in noloc][:2]))
+            return
+    except Exception as e:
+        ctx.violation("validate-raises:%s:no_location" % type(e).__name__, witness, repr(e)[:300])
+        return
     if errors:
         ctx.count("verdict:invalid")
         return
